@@ -335,3 +335,50 @@ Definition retain (acked : N) (s : st) : st :=
      | [] => []
      | cur :: older => rev (filter (retention_keeps acked) older) ++ [cur]
      end).
+
+(* ---------- batches with merge operands (C08) ---------- *)
+(* Manager.ApplyBatch takes log entries of three types. WAL.AppendBatch validates the types
+   (put, delete, merge), stamps every entry of the batch with one sequence number and writes
+   them to the log; a merge entry is written with its value, like a put. The loop over the
+   entries in Manager.ApplyBatch inserts puts and deletes into the memtable pool and has no
+   case for a merge entry — but it sets lastSeqNum for every entry, also for a merge entry.
+   So a batch made only of merge entries is an acknowledged write that consumes a sequence
+   number and is logged, and changes no memtable. Recovery (MemTable.ProcessWALEntry) has no
+   case for a merge entry either ([wentry_mentry] returns None for it) but counts its sequence
+   number ([recover_tables] takes the maximum before it looks at the type). An empty batch
+   only reads the counter, as in [apply_batch]. These functions stand next to [apply_batch]
+   (which stays the model of batches of puts and deletes); they are not constructors of [op]. *)
+Inductive ekind := EPut (v : bytes) | EDel | EMerge (v : bytes).
+Definition eop := (bytes * ekind)%type.
+
+Definition eop_entry (q : N) (o : eop) : wentry :=
+  match snd o with
+  | EPut v => mkW OpPut q (fst o) v
+  | EDel => mkW OpDel q (fst o) []
+  | EMerge v => mkW OpMerge q (fst o) v
+  end.
+
+Definition eop_apply (q : N) (a : st) (o : eop) : st :=
+  match snd o with
+  | EPut v => set_last (pool_add a (mkM (fst o) q KVal v)) q
+  | EDel => set_last (pool_add a (mkM (fst o) q KDel [])) q
+  | EMerge _ => set_last a q
+  end.
+
+(* Manager.ApplyBatch on entries of any of the three types *)
+Definition mixed_batch (s : st) (ops : list eop) : st * wr_res :=
+  match ops with
+  | [] => (s, WrOk (wal_next s))
+  | _ =>
+    if MaxSeq <=? wal_next s then (s, WrOverflow) else
+    let q := wal_next s in
+    let s1 := upd_wal s (q + 1) (log_append (wal_files s) (map (eop_entry q) ops)) in
+    let s2 := fold_left (eop_apply q) ops s1 in
+    (maybe_schedule s2, WrOk q)
+  end.
+
+(* a batch that consists only of merge entries (key, operand) *)
+Definition merge_only (es : list (bytes * bytes)) : list eop :=
+  map (fun e => (fst e, EMerge (snd e))) es.
+Definition merge_batch (s : st) (es : list (bytes * bytes)) : st * wr_res :=
+  mixed_batch s (merge_only es).
